@@ -4,4 +4,5 @@ INIT Init
 NEXT Next
 INVARIANT ExactlyOne
 INVARIANT SiblingFree
+INVARIANT AliasFirst
 INVARIANT EmitInv
